@@ -218,9 +218,10 @@ Definition insert (s : st) (b : nat) (offset repl : Z) (p : patch) : result (nat
   then Err AssertErr
   else match bbi x, p_blocks p, rev (p_blocks p) with
   | Some bi, (first, _, _, _) :: _, (last, lastk, _, _) :: _ =>
-    let '(s, pcfg) := add_return_edges_for_patch_calls s (p_cfg p) in
-    let '(pcfg, pprox) := if bkind_eqb (bk x) KCode then update_patch_return_edges s b pcfg (p_proxies p) else (pcfg, p_proxies p) in
+    let '(pcfg, pprox) := if bkind_eqb (bk x) KCode then update_patch_return_edges s b (p_cfg p) (p_proxies p) else (p_cfg p, p_proxies p) in
     do '(end_block, added_ft, s) <- insert_split s b offset repl;
+    (* calls in the patch get their return edges once the block has been split *)
+    let '(s, pcfg) := add_return_edges_for_patch_calls s pcfg in
     let s := insert_stitch s b first last lastk end_block added_ft in
     let xb := the_blk s b in
     let s := edit_byte_interval s bi (boff xb + bsize xb) repl (p_data p) [b] in
